@@ -48,8 +48,9 @@ PROPS["C07"] = {
 
 PROPS["C09"] = {
     "test": "TestC09", "level": "exploration", "registered": True, "engine": "sim",
+    "race": True, "race_is_violation": True, "race_only_matching": r"LoadBalancer|load_balancer\.go",
     "shards_quick": 8, "shards_thorough": 16, "timeout": 900,
-    "technique": "runtime monitor over target-side probe and request logs in virtual time: health by latest completed probe, rotation windows, probe cadence",
+    "technique": "runtime monitor over target-side probe and request logs in virtual time: health by latest completed probe, rotation windows, probe cadence; the monitor binary is built with the race detector and a report whose stacks touch the load balancer (the rotation state) is a violation",
     "level_text": "1-5 targets with generated post-deployment probe scripts (flapping, failure/slow/refuse/close windows, all failing with staggered recovery) are probed by the real health checks in virtual time while sequential bursts, concurrent batches and pause/resume episodes (whose drain spans probe completions) are issued between probes. The oracle recomputes each target's health from its own probe log and checks: no request at a target whose latest completed probe failed, 503 iff no target is healthy, floor/ceil fairness over every window of every constant-health run, and the probe cadence s(k+1) <= max(s(k)+interval, e(k)).",
     "level_note": "Trusted: synctest clock, fake-target logs. Requests within eps=100ms of a probe completion are ties. 'Keeps being probed' is restated as the cadence bound up to the end of the scenario.",
     "rule": "classes: (healthy-set size / n targets, run length) for every rotation run with >=2 healthy targets, and (multiset of probe patterns, pause episodes present); non-trivial = a rotation run over >= 2 healthy targets or a non-constant probe script",
